@@ -605,6 +605,54 @@ pub fn wellformed(lm: &rooc::LinearModel, src: Option<&M>) -> Vec<(String, Strin
                 bad.push(("auxiliary-without-reserved-prefix".to_string(), format!("compiler-introduced variable {v} could collide with a user name")));
             }
         }
+        // a named constraint that some assignment of the declared ranges violates cannot have been dropped as a
+        // tautology: rows enforce it, and the first of them keeps the user's name
+        {
+            let corner = |i: usize, k: usize| -> Q {
+                let (lo, hi) = m.types[i].bounds();
+                let pick = |v: f64, alt: i64| q(v).unwrap_or_else(|| qi(alt));
+                match (m.types[i], k % 3) {
+                    (VT::Bool, kk) => qi((kk % 2) as i64),
+                    (_, 0) => pick(lo, -3),
+                    (_, 1) => pick(hi, 3),
+                    _ => {
+                        let (a, b_) = (pick(lo, -3), pick(hi, 3));
+                        ((a + b_) / qi(2)).floor()
+                    }
+                }
+            };
+            let mut names_seen: Vec<&String> = vec![];
+            for c in &m.cons {
+                let Some(name) = &c.name else { continue };
+                if names_seen.contains(&name) {
+                    continue; // later uses get suffixed names (checked below)
+                }
+                names_seen.push(name);
+                if lm.constraints().iter().any(|r| r.name() == *name) {
+                    continue;
+                }
+                // 3^n corners / midpoints, n <= 4
+                let n = m.n();
+                let mut violated = false;
+                for code in 0..3usize.pow(n.min(4) as u32) {
+                    let p: Vec<Q> = (0..n).map(|i| corner(i, code / 3usize.pow(i.min(3) as u32))).collect();
+                    let holds = match &c.kind {
+                        CKind::Cmp(l, cmp, r) => match (l.eval(&p), r.eval(&p)) {
+                            (Ok(a), Ok(b_)) => Some(cmp.holds(&a, &b_, &zero())),
+                            _ => None,
+                        },
+                        CKind::Assert(e) => e.eval(&p).ok().map(|v| !v.is_zero()),
+                    };
+                    if holds == Some(false) {
+                        violated = true;
+                        break;
+                    }
+                }
+                if violated {
+                    bad.push(("user-row-name-lost".to_string(), format!("the constraint named '{name}' can be violated, yet no row of the linear model carries its name")));
+                }
+            }
+        }
         // names: every named row carries a user name or <user name>__k; a suffixed name implies the plain one
         let user: Vec<&String> = m.cons.iter().filter_map(|c| c.name.as_ref()).collect();
         for r in lm.constraints() {
